@@ -158,7 +158,8 @@ def chunkings(r, s, single_cuts=30, randoms=4):
         # always include the cuts next to every 0xDE (inside start markers)
         near = [i for i in cuts if s[i - 1] == 0xDE or s[i] == 0xAD]
         r.shuffle(near)
-        rest = [i for i in cuts if i not in near]
+        nearset = set(near)
+        rest = [i for i in cuts if i not in nearset]
         r.shuffle(rest)
         cuts = (near[:single_cuts // 2] + rest)[:single_cuts]
     for c in cuts:
